@@ -31,6 +31,91 @@ from . import table as T
 from . import panic as PN
 
 
+def once_per_use(ctx, facts, roles, p, cfg, name, e, K2="K2", K3="K3"):
+    """Operands of if / and / or are drawn from the operand list only inside per-element code (no pre-pass,
+    nothing touched again after the iteration), which has a success path without parse/evaluate and at most
+    one evaluation per element.  Returns the unit."""
+    u = Unit(roles, e.fn_key, extended=True)
+    root = u.root
+    sink_keys = set(roles.sinks)
+    eval_key = roles.parsed_evaluate
+    interp = [s for s in u.calls(lambda c: c.get("key") in sink_keys or c.get("key") in roles.evaluators)]
+    ctx.need(interp, "%s never calls the interpreter" % name)
+    # list parser / parse through adaptor = pre-pass
+    for s in interp:
+        c = callee_of(s.term)
+        key = c["key"]
+        is_list = key in {lb.key for lb in roles.list_parsers}
+        ctxk = u.per_element(s)
+        tags = set()
+        if key in sink_keys:
+            sk = p.s1.get((s.body.key, s.bi, key, roles.sinks[key][0]))
+            tags = sk.tags if sk else set()
+        elif key == eval_key:
+            s2 = p.s2.get((s.body.key, s.bi))
+            tags = s2.extra["receiver"] if s2 else set()
+        generic_rule = "RULE" in tags  # drawn from the operand list as a whole (iteration), not args[c]
+        if is_list:
+            ctx.fail(K2 + ".no-prepass", "%s|list-parser" % name, "%s parses its whole operand list up front: a malformed operand after the deciding one makes the operation fail" % name, where=s.where(), fn=s.body.key)
+            continue
+        if generic_rule or ctxk:
+            ctx.check(ctxk in ("loop", "closure"), K2 + ".per-element", "%s: %s at %s (%s)" % (name, c["path"].rsplit("::", 1)[-1], s.where(), cfg),
+                      "%s touches operands drawn from the operand list outside the per-element code (%s)" % (name, c["path"]), where=s.where(), fn=s.body.key, nontrivial=True,
+                      sample={"operator": name, "call": c["path"], "context": ctxk, "tags": sorted(tags)})
+        else:
+            # constant operand index outside the loop: only `if`'s prologue
+            ctx.check(name == "if", K2 + ".prologue", "%s: %s at %s (%s)" % (name, c["path"].rsplit("::", 1)[-1], s.where(), cfg),
+                      "%s evaluates a fixed operand outside the per-element code" % name, where=s.where(), fn=s.body.key)
+    # parser fn items handed to adaptors (`.map(Parsed::from_value)`)
+    for b in u.bodies:
+        for bi, t in b.calls():
+            for a in t["args"]:
+                c = op_const(a)
+                if c and "fn" in c:
+                    r = c["fn"].get("resolved") or c["fn"]
+                    if r.get("key") in sink_keys:
+                        ctx.fail(K2 + ".no-prepass", "%s|mapped-parser" % name, "%s maps the parser over its operands (a pre-pass over all operands)" % name, where=b.where(bi), fn=b.key)
+    # ---- K3: per-element bodies
+    pe_bodies = {}
+    for s in interp:
+        k = u.per_element(s)
+        if k == "closure":
+            # the outermost closure handed to the adaptor
+            cur = s.body
+            while cur.kind == "closure" and cur.creator() and cur.creator()[0].key != root.key:
+                cur = cur.creator()[0]
+            pe_bodies[cur.key] = cur
+        elif k == "loop":
+            pe_bodies[s.body.key] = s.body
+    ctx.need(pe_bodies, "%s has no per-element code" % name)
+    is_interp = lambda t: callee_of(t) is not None and (callee_of(t).get("key") in sink_keys or callee_of(t).get("key") in roles.evaluators)
+    is_eval = lambda t: callee_of(t) is not None and callee_of(t).get("key") in roles.evaluators
+    for k, b in pe_bodies.items():
+        if b.kind == "closure":
+            # a *success* path: error propagation (`?` residuals) does not count as the 'already decided' path
+            is_blocked = lambda t: is_interp(t) or "from_residual" in (callee_path(t) or "")
+            skip = path_avoiding(b, is_blocked)
+            ctx.check(skip, K3 + ".skippable", "%s: per-element closure has a path without parse/evaluate (%s)" % (name, cfg),
+                      "every path through %s's per-element code parses or evaluates its operand: operands after the deciding one are still evaluated" % name, where=b.where(), fn=b.key, nontrivial=True)
+            m = max_calls_on_a_path(b, is_eval)
+            ctx.check(m <= 1, K3 + ".once", "%s: at most one evaluation per element (%s)" % (name, cfg), "a path through %s's per-element code evaluates %d times" % (name, m), where=b.where(), fn=b.key, nontrivial=True,
+                      sample={"operator": name, "max_evaluations_per_element": m})
+        else:
+            # loop form: an exit out of the loop other than the iterator's None edge (early return)
+            early = False
+            for (h, blocks, srcs) in PN.loops_of(b):
+                evs = [bi for bi in blocks if b.blocks[bi]["term"]["k"] == "Call" and is_eval(b.blocks[bi]["term"])]
+                if not evs:
+                    continue
+                for bi in blocks:
+                    for sx in b.succs(bi):
+                        if sx not in blocks and any(b.dominates(ev, bi) for ev in evs):
+                            early = True
+            ctx.check(early, K3 + ".skippable", "%s: the operand loop can be left after an evaluation (%s)" % (name, cfg),
+                      "%s's loop over the operands has no early exit after evaluating an element" % name, where=b.where(), fn=b.key, nontrivial=True)
+    return u
+
+
 def run(ctx):
     ctx.explanation = __doc__
     ctx.rule = "instances = table facts, parse/evaluate call sites of the three functions with their per-element context, path facts of the per-element bodies, constructed values; non-trivial = needs CFG path reasoning or provenance"
@@ -48,84 +133,9 @@ def run(ctx):
         ctx.check(len({e_if.fn_key, e_and.fn_key, e_or.fn_key}) == 3, "K1.distinct", "if, and, or have their own implementations (%s)" % cfg, "two of if/and/or share one function", where=facts.body(e_if.table.const_key).where())
         p = P.Prov(roles).run()
         for name, e in (("if", e_if), ("and", e_and), ("or", e_or)):
-            u = Unit(roles, e.fn_key, extended=True)
+            u = once_per_use(ctx, facts, roles, p, cfg, name, e)
             root = u.root
             sink_keys = set(roles.sinks)
-            eval_key = roles.parsed_evaluate
-            interp = [s for s in u.calls(lambda c: c.get("key") in sink_keys or c.get("key") in roles.evaluators)]
-            ctx.need(interp, "%s never calls the interpreter" % name)
-            # list parser / parse through adaptor = pre-pass
-            for s in interp:
-                c = callee_of(s.term)
-                key = c["key"]
-                is_list = key in {lb.key for lb in roles.list_parsers}
-                ctxk = u.per_element(s)
-                tags = set()
-                if key in sink_keys:
-                    sk = p.s1.get((s.body.key, s.bi, key, roles.sinks[key][0]))
-                    tags = sk.tags if sk else set()
-                elif key == eval_key:
-                    s2 = p.s2.get((s.body.key, s.bi))
-                    tags = s2.extra["receiver"] if s2 else set()
-                generic_rule = "RULE" in tags  # drawn from the operand list as a whole (iteration), not args[c]
-                if is_list:
-                    ctx.fail("K2.no-prepass", "%s|list-parser" % name, "%s parses its whole operand list up front: a malformed operand after the deciding one makes the operation fail" % name, where=s.where(), fn=s.body.key)
-                    continue
-                if generic_rule or ctxk:
-                    ctx.check(ctxk in ("loop", "closure"), "K2.per-element", "%s: %s at %s (%s)" % (name, c["path"].rsplit("::", 1)[-1], s.where(), cfg),
-                              "%s touches operands drawn from the operand list outside the per-element code (%s)" % (name, c["path"]), where=s.where(), fn=s.body.key, nontrivial=True,
-                              sample={"operator": name, "call": c["path"], "context": ctxk, "tags": sorted(tags)})
-                else:
-                    # constant operand index outside the loop: only `if`'s prologue
-                    ctx.check(name == "if", "K2.prologue", "%s: %s at %s (%s)" % (name, c["path"].rsplit("::", 1)[-1], s.where(), cfg),
-                              "%s evaluates a fixed operand outside the per-element code" % name, where=s.where(), fn=s.body.key)
-            # parser fn items handed to adaptors (`.map(Parsed::from_value)`)
-            for b in u.bodies:
-                for bi, t in b.calls():
-                    for a in t["args"]:
-                        c = op_const(a)
-                        if c and "fn" in c:
-                            r = c["fn"].get("resolved") or c["fn"]
-                            if r.get("key") in sink_keys:
-                                ctx.fail("K2.no-prepass", "%s|mapped-parser" % name, "%s maps the parser over its operands (a pre-pass over all operands)" % name, where=b.where(bi), fn=b.key)
-            # ---- K3: per-element bodies
-            pe_bodies = {}
-            for s in interp:
-                k = u.per_element(s)
-                if k == "closure":
-                    # the outermost closure handed to the adaptor
-                    cur = s.body
-                    while cur.kind == "closure" and cur.creator() and cur.creator()[0].key != root.key:
-                        cur = cur.creator()[0]
-                    pe_bodies[cur.key] = cur
-                elif k == "loop":
-                    pe_bodies[s.body.key] = s.body
-            ctx.need(pe_bodies, "%s has no per-element code" % name)
-            is_interp = lambda t: callee_of(t) is not None and (callee_of(t).get("key") in sink_keys or callee_of(t).get("key") in roles.evaluators)
-            is_eval = lambda t: callee_of(t) is not None and callee_of(t).get("key") in roles.evaluators
-            for k, b in pe_bodies.items():
-                if b.kind == "closure":
-                    # a *success* path: error propagation (`?` residuals) does not count as the 'already decided' path
-                    is_blocked = lambda t: is_interp(t) or "from_residual" in (callee_path(t) or "")
-                    skip = path_avoiding(b, is_blocked)
-                    ctx.check(skip, "K3.skippable", "%s: per-element closure has a path without parse/evaluate (%s)" % (name, cfg),
-                              "every path through %s's per-element code parses or evaluates its operand: operands after the deciding one are still evaluated" % name, where=b.where(), fn=b.key, nontrivial=True)
-                    m = max_calls_on_a_path(b, is_eval)
-                    ctx.check(m <= 1, "K3.once", "%s: at most one evaluation per element (%s)" % (name, cfg), "a path through %s's per-element code evaluates %d times" % (name, m), where=b.where(), fn=b.key, nontrivial=True,
-                              sample={"operator": name, "max_evaluations_per_element": m})
-                else:
-                    # loop form: an exit out of the loop other than the iterator's None edge (early return)
-                    early = False
-                    for (h, blocks, srcs) in PN.loops_of(b):
-                        evs = [bi for bi in blocks if b.blocks[bi]["term"]["k"] == "Call" and is_eval(b.blocks[bi]["term"])]
-                        if not evs:
-                            continue
-                        for bi in blocks:
-                            for sx in b.succs(bi):
-                                if sx not in blocks and any(b.dominates(ev, bi) for ev in evs):
-                                    early = True
-                    ctx.check(early, "K3.skippable", "%s: the operand loop can be left after an evaluation (%s)" % (name, cfg),
-                              "%s's loop over the operands has no early exit after evaluating an element" % name, where=b.where(), fn=b.key, nontrivial=True)
             # ---- K5: the data is only ever handed to the evaluator (no private look-ups that could disagree with it)
             for bb in u.bodies:
                 for bi, t in bb.calls():
